@@ -107,12 +107,13 @@ Definition add_term_gen (retry : bool) (t : T) (l : list T) : bool * list T :=
 Definition add_term := add_term_gen add_term_retries.
 
 (** a sequence of add_term calls; counts the refused insertions *)
-Fixpoint add_terms (ts : list T) (st : nat * list T) : nat * list T :=
+Fixpoint add_terms_gen (retry : bool) (ts : list T) (st : nat * list T) : nat * list T :=
   match ts with
   | [] => st
-  | t :: r => let (ok, l') := add_term t (snd st) in
-              add_terms r ((if ok then fst st else S (fst st)), l')
+  | t :: r => let (ok, l') := add_term_gen retry t (snd st) in
+              add_terms_gen retry r ((if ok then fst st else S (fst st)), l')
   end.
+Definition add_terms := add_terms_gen add_term_retries.
 
 End TermList.
 
@@ -346,7 +347,12 @@ Definition part_emissions (g : nat) (tl : tols) (p : part_in) : outcome (list (e
     either at most tol/4 or at least 2 tol apart. *)
 Definition sep_pair (tol x y : K) : bool :=
   let d := kabs (ksub x y) in negb (ltb (kdiv tol (ofZ 4)) d) || negb (ltb d (kmul (ofZ 2) tol)).
-Definition separated_b (tol : K) (vals : list K) : bool := forallb (fun x => forallb (sep_pair tol x) vals) vals.
+(** distinct values only (equal = neither is less than the other); keeps the test quadratic in the number of DISTINCT poles *)
+Definition same_val (x y : K) : bool := negb (ltb x y) && negb (ltb y x).
+Definition dedup_vals (vals : list K) : list K :=
+  fold_left (fun acc x => if existsb (same_val x) acc then acc else x :: acc) vals [].
+Definition separated_b (tol : K) (vals : list K) : bool :=
+  let d := dedup_vals vals in forallb (fun x => forallb (sep_pair tol x) d) d.
 Definition em_poles (res flag : bool) (k : nat) (e : emission K) : list K :=
   match e with
   | EmitNonRes _ _ p1 p2 p3 f => if negb res && Bool.eqb f flag then [nth k [p1; p2; p3] 0] else []
